@@ -183,12 +183,17 @@ Section Good3.
       apply mapM_attr_name_of in E3. destruct E3 as [-> Fn].
       destruct (clone_dict_ok _ _ _ _ _ _ _ G2 (HL _ (lk_n_mp x)) E4) as (G4 & F4 & C4).
       destruct (clone_meta_ok allow deep h0 Hcl0 _ _ _ _ G4 (HL _ (lk_n_meta x)) E5) as (G5 & F5 & C5).
-      destruct (mapM_good allow deep h0 (clone_output deep) (fun s o c => VR s o c) (fun o => o < n0)
+      destruct (mapM_good allow deep h0 (clone_output deep)
+                  (fun s o c => VR s o c /\ assoc o (vmap s) <> None) (fun o => o < n0)
                   (mono_clone_output deep)
                   (fun o s s' b Ho Gs Hs => clone_output_ok allow deep h0 Hcl0 s s' o b Gs Ho Hs)
-                  (fun o b s s' Gs Ls HR' => VR_le allow deep h0 s s' Gs Ls o b HR')
+                  (fun o b s s' Gs Ls HR' =>
+                     conj (VR_le allow deep h0 s s' Gs Ls o b (proj1 HR')) (proj1 (proj2 Ls) o (proj2 HR')))
                   _ _ _ _
-                  (proj2 (Forall_forall _ _) (fun o Ho => HL o (lk_n_output x o Ho))) G5 E6) as [G6 Fo].
+                  (proj2 (Forall_forall _ _) (fun o Ho => HL o (lk_n_output x o Ho))) G5 E6) as [G6 Fo']
+      .
+      assert (Fo : Forall2 (VR s6) (n_outputs x) outs).
+      { eapply Forall2_impl'; [|exact Fo']. intros a b _ _ K1. apply K1. }
       assert (L12 : le s1 s2) by (eapply mono_mapM; [intros; apply mono_clone_attr, (proj1 HR)|exact E2]).
       assert (L24 : le s2 s4) by (eapply mono_clone_dict; exact E4).
       assert (L45 : le s4 s5) by (eapply mono_clone_meta; exact E5).
@@ -200,8 +205,24 @@ Section Good3.
       unfold finish_node in H. bind_as H s7 u E7. unfold keep_add in E7. injection E7 as <- _.
       set (K := filter (unmapped (vmap s6)) (flat_map dev_ids (n_dev x))) in *.
       set (s7 := St (hp s6) (vmap s6) (passed s6) (K ++ kept s6)) in *.
+      assert (L16' : le s1 s6).
+      { eapply le_trans; [eapply mono_mapM; [intros; apply mono_clone_attr, (proj1 HR)|exact E2]|].
+        eapply le_trans; [eapply mono_clone_dict; exact E4|]. eapply le_trans; [eapply mono_clone_meta; exact E5|].
+        eapply mono_mapM; [intros; apply mono_clone_output|exact E6]. }
       assert (G7 : good s7).
-      { apply good_ghost; [exact G6|apply incl_refl|apply incl_appr, incl_refl|apply (g_passed _ _ _ _ G6)]. }
+      { apply good_ghost; [exact G6|apply incl_refl|apply incl_appr, incl_refl|apply (g_passed _ _ _ _ G6)|].
+        intros Wd y Hy. apply in_app_or in Hy. destruct Hy as [Hy|Hy]; [|apply (g_kept _ _ _ _ G6 Wd y Hy)].
+        unfold K in Hy. apply filter_In in Hy. destruct Hy as [Hy Hun]. unfold unmapped in Hun.
+        apply in_flat_map in Hy. destruct Hy as (d & Hd & Hy). unfold dev_ids in Hy.
+        apply in_flat_map in Hy. destruct Hy as (sp & Hsp & Hy). apply in_oid in Hy.
+        destruct (Wd _ _ E d sp y Hd Hsp Hy) as [Hin|Hout].
+        - destruct (Forall2_in_l _ _ _ _ Fi Hin) as (i' & _ & K1). unfold Proofs4.IR in K1.
+          destruct i' as [c|]; [|contradiction]. destruct K1 as (_ & _ & _ & [K1|K1]).
+          + exfalso. destruct L16' as (_ & Ld & _). apply (Ld y) in K1. destruct (assoc y (vmap s6)); [discriminate|].
+            apply K1. reflexivity.
+          + destruct L16' as (_ & _ & Lp & _). apply Lp, K1.
+        - exfalso. destruct (Forall2_in_l _ _ _ _ Fo' Hout) as (c & _ & [_ K1]).
+          destruct (assoc y (vmap s6)); [discriminate|]. apply K1. reflexivity. }
       assert (L67 : le s6 s7).
       { unfold s7. repeat split; simpl; try apply hle_refl; try apply incl_refl; try (intros o Ho; exact Ho).
         apply incl_appr, incl_refl. }
@@ -282,7 +303,7 @@ Section Good3.
         + (* inputs *)
           apply Forall2_map_eq. eapply Forall2_impl'; [|exact Fi7]. intros i i' _ _ K1.
           unfold Proofs4.IR in K1. destruct i as [v|], i' as [c|]; try contradiction; simpl; [|reflexivity].
-          destruct K1 as (K1 & _ & K3). rewrite (vref_le _ _ L7) by exact K1. rewrite (K3 W). reflexivity.
+          destruct K1 as (K1 & _ & K3 & _). rewrite (vref_le _ _ L7) by exact K1. rewrite (K3 W). reflexivity.
         + (* outputs *)
           apply Forall2_map_eq. eapply Forall2_impl'; [|exact Fo7]. intros o c _ _ (K1 & _ & K3).
           rewrite (vcanon_le _ _ _ _ _ G7 L7) by apply K1. apply K3, W.
